@@ -160,6 +160,7 @@ class AbstractNDArray(ABC):
         new = self.__new__(self.__class__)
         new.__dict__.update(self.__dict__)
         new._array = self._array.copy()
+        new._clear_cached_properties()
         return new
 
     def __deepcopy__(self, memo):
@@ -169,6 +170,7 @@ class AbstractNDArray(ABC):
         new = self.__new__(self.__class__)
         new.__dict__.update(self.__dict__)
         new._array = self._array.copy()
+        new._clear_cached_properties()
         return new
 
     def __iter__(self):
@@ -348,6 +350,7 @@ class AbstractNDArray(ABC):
             self._array = npw.where(key, value, self._array)
         else:
             self._array[key] = value
+        self._clear_cached_properties()
 
     def __repr__(self):
         return repr(self._array).replace(
